@@ -288,10 +288,11 @@ def delivered (cfg : Cfg) (tr : Trace) (o : Obl) : Bool :=
 
 def missing (cfg : Cfg) (tr : Trace) (endT : Int) : List Obl := (obligations cfg tr endT).filter fun o => !delivered cfg tr o
 
-/-- K7b: every datagram reaches every host that came up before it was sent (and is not closed meanwhile) within `maxDelay`,
-except one chosen delivery -/
+/-- K7b — "the loss of any single datagram": every datagram reaches every host that came up before it was sent (and is not closed
+meanwhile) within `maxDelay`, except that **one datagram** may be lost — for one receiver, for several, or for all of them
+(a multicast datagram lost at the sender): all deliveries that are owed and did not happen are deliveries of the same send -/
 def K7b (cfg : Cfg) (tr : Trace) (endT : Int) : Bool :=
-  (missing cfg tr endT).all fun a => (missing cfg tr endT).all fun b => a == b
+  (missing cfg tr endT).all fun a => (missing cfg tr endT).all fun b => a.d == b.d && a.t == b.t
 
 def K7 (cfg : Cfg) (tr : Trace) (endT : Int) : Bool := K7a cfg tr && K7b cfg tr endT
 
